@@ -117,7 +117,11 @@ func init() {
 				b = pick(r, []string{"", "create", "create", "", "create", "", "merge", "replace"})
 			}
 			d := map[string]string{}
-			for j := 0; j < 1+r.Intn(3); j++ {
+			nd := 1 + r.Intn(3)
+			if r.Intn(4) == 0 {
+				nd = 0 // a generator entry without text sources (options only, or binary files only)
+			}
+			for j := 0; j < nd; j++ {
 				d[pick(r, []string{"a", "b", "c"})] = pick(r, []string{"1", "2", "x", ""})
 			}
 			bin := map[string]string{}
